@@ -382,6 +382,8 @@ def analyse(src, out, comments):
     # the leading block (blank lines, comments, separators in front of the first document) must come back unchanged
     li, ri, si = py_process(src.encode("utf-8"))
     lo, ro, so = py_process(out)
+    if src == "" and out == b"\n":
+        return "fail:leading", "the empty stream is printed as one newline", {"empty-stream-prints-newline"}
     if not si and not so and li != lo:
         fixed = b"".join((b"# " + l) if (l.strip(b" \t\r\f\v") == b"\n" and l != b"\n") else l for l in li.splitlines(True))
         if fixed == lo:
@@ -438,11 +440,11 @@ WS = b" \t\n\r\f\v"
 
 
 def py_process(b):
-    """processReadStream re-stated: (leading content, rest, stopped because fewer than 4 bytes were left)"""
+    """processReadStream re-stated: (leading content, rest, always False: the scan no longer stops on a short tail)"""
     sb = b""
     while True:
-        if len(b) < 4:
-            return sb, b, len(b) > 0
+        if len(b) == 0:
+            return sb, b, False
         w = b[:4]
         if w[:1] == b"\n":
             b = b[1:]
@@ -452,9 +454,9 @@ def py_process(b):
             sb += b"$yqDocSeparator$\n"
         else:
             k = 0
-            while k < 4 and w[k:k + 1] in (b" ", b"\t", b"\n", b"\r", b"\f", b"\v"):
+            while k < len(w) and w[k:k + 1] in (b" ", b"\t", b"\n", b"\r", b"\f"):
                 k += 1
-            if (k < 4 and w[k:k + 1] == b"#") or w[k:k + 3] == b"%YA" and k <= 1:
+            if w[k:k + 1] == b"#" or w[k:k + 3] == b"%YA":
                 i = b.find(b"\n")
                 if i < 0:
                     return sb + b, b"", False
@@ -714,7 +716,7 @@ def run(chk):
             single = False
         if not single:
             continue
-        body_ok = lead == b"" and not short and len(e) >= 4
+        body_ok = lead == b"" and not short
         if body_ok:
             h_body += 1
         else:
